@@ -16,7 +16,7 @@ def main():
     ap.add_argument("--replay")
     a = ap.parse_args()
     if a.replay:
-        r = subprocess.run([PY, a.replay], env=dict(os.environ, PYTHONPATH=os.environ.get("VF_ROOT", "/verif") + ":/repo", TZ="UTC"))
+        r = subprocess.run([PY, a.replay], env=dict(os.environ, PYTHONPATH=os.environ.get("VF_ROOT", "/verif") + ":" + os.environ.get("VF_REPO", "/repo"), TZ="UTC"))
         sys.exit(r.returncode)
     tier = a.tier if a.tier in ("quick", "thorough") else "quick"
     seed = int(os.environ.get("VERIF_SEED", "0") or 0)
